@@ -25,6 +25,8 @@ if ROUND == 2:
     ALSO["C16-m2"] = ["C04"]
 elif ROUND >= 4:
     ALSO = {}
+    if ROUND == 6:
+        OWN_OVERRIDE = {"C19-m2": []}
     if ROUND == 4:
         # Not reported by any check: the change only matters after 2^31 operations on one task (DESIGN 6.3).
         OWN_OVERRIDE = {"C05-m1": [], "C05-m2": []}
@@ -82,7 +84,8 @@ if marker in open(readme).read():
 intro = {2: "Sub-agents were asked for *different, less central* code sites than in round 1.",
          3: "Sub-agents were asked for a third class of change: memory orderings, off-by-one errors in masks and counters, resource lifecycle, state surviving across steps / clones / simulations, rare API combinations, the worker-thread protocol.",
          4: "Sub-agents were asked for changes that short, small scenarios would not show: larger sizes and longer histories, extreme values, rare API and type shapes, particular orders of configuration and use. `C05-r4-m1/m2` are reported by no check (they need 2^31 operations on one task, see DESIGN 6.3).",
-         5: "Free choice of site, avoiding everything used in rounds 2-4."}[ROUND]
+         5: "Free choice of site, avoiding everything used in rounds 2-4.",
+         6: "Free choice of site for 16 properties, avoiding everything used in rounds 2-5. `C19-r6-m2` is reported by no check (a memory-only leak, see DESIGN 6.3)."}[ROUND]
 text += marker + "\n" + intro + "\n\n| id | property | change | needs | reported by (quick) |\n|---|---|---|---|---|\n"
 for r in rows:
     text += "| %s | %s | %s | %s | %s |\n" % r
